@@ -35,6 +35,14 @@ def jobs(tier, seed):
         for k in range(shards):
             js.append({"label": f"e3 {name}|preemptions<={bound}|shard{k}/{shards}", "scenario": name, "bound": bound,
                        "shard": [k, shards]})
+    # operator pause / resume / cancel interleaved with the run: two parallel stages parked PAUSED, resumed, cancelled
+    for spec in [wl("dag_workload", 2, 0), wl("chain3")]:
+        js.append({"label": f"{spec[0]}{spec[1]}|pause1,unpause1,cancel1", "wl": spec,
+                   "budget": {"pause": 1, "unpause": 1, "cancel": 1}, "max_states": 400000})
+    for spec in [wl("chain3"), wl("multitask"), wl("fail_mid"), wl("poll", 1)]:
+        js.append({"label": f"{spec[0]}{spec[1]}|pause1,unpause1", "wl": spec, "budget": {"pause": 1, "unpause": 1}})
+    for spec in [wl("chain3"), wl("fail_mid"), wl("continue_on_fail")]:
+        js.append({"label": f"{spec[0]}{spec[1]}|oprestart1", "wl": spec, "budget": {"oprestart": 1}})
     if tier == "quick":
         for spec in SMALL:
             js.append({"label": f"{spec[0]}{spec[1]}|noack1", "wl": spec, "budget": {"noack": 1}})
@@ -42,10 +50,6 @@ def jobs(tier, seed):
             js.append({"label": f"{spec[0]}{spec[1]}|all-orders", "wl": spec, "budget": {}})
         for spec in CANCEL:
             js.append({"label": f"{spec[0]}{spec[1]}|cancel1", "wl": spec, "budget": {"cancel": 1}})
-        for spec in [wl("chain3"), wl("multitask"), wl("fail_mid"), wl("poll", 1)]:
-            js.append({"label": f"{spec[0]}{spec[1]}|pause1,unpause1", "wl": spec, "budget": {"pause": 1, "unpause": 1}})
-        for spec in [wl("chain3"), wl("fail_mid"), wl("continue_on_fail")]:
-            js.append({"label": f"{spec[0]}{spec[1]}|oprestart1", "wl": spec, "budget": {"oprestart": 1}})
         for spec in [wl("diamond"), wl("multitask"), wl("jump_cycle", 2, 1)]:
             js.append({"label": f"{spec[0]}{spec[1]}|sweep1", "wl": spec, "budget": {"sweep": 1}})
         for spec in [wl("diamond"), wl("fail_mid"), wl("jump_cycle", 2, 1), wl("synthetic")]:
@@ -60,6 +64,12 @@ def jobs(tier, seed):
             js.append({"label": f"{spec[0]}{spec[1]}|spurious1,early1", "wl": spec, "budget": {"spurious": 1, "early": 1}})
         for spec in SMALL + BIG:
             js.append({"label": f"{spec[0]}{spec[1]}|crash-recovery audit rows", "wl": spec, "crash": True})
+        for spec in [wl("dag_workload", 2, 0), wl("fail_mid")]:
+            js.append({"label": f"{spec[0]}{spec[1]}|pause1,unpause1,cancel1,noack1", "wl": spec,
+                       "budget": {"pause": 1, "unpause": 1, "cancel": 1, "noack": 1}, "max_states": 600000})
+        for spec in [wl("diamond"), wl("multitask"), wl("jump_cycle", 2, 1)]:
+            js.append({"label": f"{spec[0]}{spec[1]}|oprestart1,sweep1", "wl": spec, "budget": {"oprestart": 1, "sweep": 1},
+                       "max_states": 400000})
     return js
 
 
@@ -91,6 +101,13 @@ E3_SCEN = {
     "CompleteStage(B)||CompleteStage(C)": ("diamond_e", [], ["CompleteStage:B", "CompleteStage:C", "StartStage:D"], [2, 2]),
     "CancelStage(C)||CompleteTask(C)": ("fail_branch_slow", [], ["CancelStage:C", "CompleteTask:C"], [1, 1]),
     "mutex StartStage(X)||StartStage(Y)": ("mutex2", [], ["StartStage:X", "StartStage:Y"], [1, 1]),
+    # the workflow row has no version column: a handler writing back the row it read earlier is only caught here
+    "CancelWorkflow||CompleteWorkflow": ("chain3", [], ["CompleteWorkflow", "CancelWorkflow"],
+                                         [["CancelWorkflow"], ["CompleteWorkflow"]], ["cancel"]),
+    "CancelWorkflow||StartWorkflow": ("chain3", [], ["StartWorkflow", "CancelWorkflow"],
+                                      [["CancelWorkflow"], ["StartWorkflow"]], ["cancel"]),
+    "CancelWorkflow||CompleteStage(C)+CompleteWorkflow": ("chain3", [], ["CompleteStage:C", "CancelWorkflow"],
+                                                          [["CancelWorkflow"], 2], ["cancel"]),
 }
 
 
@@ -101,7 +118,8 @@ def run_e3(job):
     from vlib.e3 import run_engine_scenario
     from vlib.monitors import check_audit_rows
 
-    wname, args, skip, scripts = E3_SCEN[job["scenario"]]
+    wname, args, skip, scripts, *rest = E3_SCEN[job["scenario"]]
+    post = rest[0] if rest else []
     workload = make_workload(wl(wname, *args))
 
     def oracle(ctx):
@@ -109,7 +127,8 @@ def run_e3(job):
         return check_audit_rows(rows, None, {})
 
     s = run_engine_scenario(workload, skip, scripts, oracle, job["bound"], shard=job.get("shard"),
-                            time_cap=job.get("time_cap", 1200))
+                            time_cap=job.get("time_cap", 1200), post_actions=post,
+                            budget={a: 1 for a in post} if post else None)
     viols, seen = [], set()
     for v in s.pop("_violations"):
         v["signature"] = f"e3:{v['sig']}@{job['scenario']}"
